@@ -2,6 +2,7 @@ package ast
 
 import (
 	"fmt"
+	"reflect"
 
 	"github.com/google/go-cmp/cmp"
 	"github.com/google/go-cmp/cmp/cmpopts"
@@ -780,9 +781,8 @@ func (t EnumType) MemberForValue(value any) (EnumValue, bool) {
 		return t.Values[0], false
 	}
 
-	equal := func(a, b any) bool {
-		return a == b
-	}
+	// values of any type can be found here (a list, a map): `==` panics on those
+	equal := reflect.DeepEqual
 	if t.Values[0].Type.Scalar.ScalarKind != KindString {
 		equal = func(a, b any) bool {
 			return tools.AnyToInt64(a) == tools.AnyToInt64(b)
